@@ -66,7 +66,14 @@ pub fn rle_encode<T: Eq + Clone>(data: &[T]) -> RleEncoded<T> {
 /// Decode RLE back to original data.
 #[must_use]
 pub fn rle_decode<T: Clone + Eq>(encoded: &RleEncoded<T>) -> Vec<T> {
-    let total_len = encoded.len();
+    // Only runs that have a value are decoded, so only they may size the buffer
+    // (a corrupted encoding can carry run lengths without values).
+    let total_len: usize = encoded
+        .values
+        .iter()
+        .zip(&encoded.run_lengths)
+        .map(|(_, &count)| count as usize)
+        .sum();
     let mut result = Vec::with_capacity(total_len);
 
     for (value, &count) in encoded.values.iter().zip(&encoded.run_lengths) {
